@@ -678,6 +678,10 @@ class Progress(JupyterMixin, RenderHook):
             try:
                 if self.auto_refresh and self._refresh_thread is not None:
                     self._refresh_thread.stop()
+                # text left pending by print(..., end="") belongs above the display, not after its last frame
+                for stream in (sys.stdout, sys.stderr):
+                    if isinstance(stream, FileProxy):
+                        stream.flush()
                 self.refresh()
                 if self.console.is_terminal:
                     self.console.line()
